@@ -7,6 +7,8 @@ package server
 
 import (
 	"bytes"
+	"encoding/binary"
+	"encoding/hex"
 	"encoding/json"
 	"fmt"
 	"os"
@@ -15,6 +17,7 @@ import (
 	"time"
 
 	"github.com/DataDog/datadog-go/v5/statsd"
+	"github.com/dgraph-io/badger/v4"
 	"go.uber.org/zap"
 
 	"github.com/mimiro-io/datahub/internal/conf"
@@ -82,6 +85,7 @@ type VerifOpObs struct {
 	Pages   [][]VerifEnt `json:"pages,omitempty"` // entities
 	RPages  [][]VerifRel `json:"rpages,omitempty"`
 	Found   bool         `json:"found,omitempty"`
+	Raw     map[string][]string `json:"raw,omitempty"` // rawkeys: index id -> keys (hex) in Badger iteration order
 	NewSeqs int          `json:"newseqs,omitempty"`
 }
 
@@ -420,6 +424,25 @@ func verifDoOp(h *verifHub, op VerifOp, idx int, times map[int]int64, tokens map
 			}
 			froms = res.Cont
 		}
+	case "rawkeys":
+		oo.Raw = map[string][]string{}
+		_ = store.database.View(func(txn *badger.Txn) error {
+			for _, fam := range []uint16{1, 2, 3, 4, 8} {
+				prefix := make([]byte, 2)
+				binary.BigEndian.PutUint16(prefix, fam)
+				opts := badger.DefaultIteratorOptions
+				opts.PrefetchValues = false
+				opts.Prefix = prefix
+				it := txn.NewIterator(opts)
+				keys := []string{}
+				for it.Seek(prefix); it.ValidForPrefix(prefix) && len(keys) < 300; it.Next() {
+					keys = append(keys, hex.EncodeToString(it.Item().KeyCopy(nil)))
+				}
+				it.Close()
+				oo.Raw[fmt.Sprint(fam)] = keys
+			}
+			return nil
+		})
 	default:
 		oo.Err = "unknown op " + op.Op
 	}
